@@ -107,9 +107,13 @@ def classify(res, linemap):
                 site_meta = linemap[l2 - 1]
                 break
         site = site_meta or meta
+        is_verif = any(msg.startswith(m) or m in msg for m in VERIF_MSGS) and d.get("code") is None
         # attribution: a failed postcondition / invariant belongs to the properties its CLAUSE carries;
-        # a failed precondition (primary span = call site) belongs to the calling function's properties
-        if "precondition" in msg:
+        # a failed precondition (primary span = call site) belongs to the calling function's properties;
+        # a compile-level error belongs to the item containing its primary span
+        if not is_verif:
+            site, clause_meta, pr = meta, meta, meta.get("props", [])
+        elif "precondition" in msg:
             pr = meta.get("props", [])
             site, clause_meta = meta, (site_meta or meta)
         else:
